@@ -124,10 +124,13 @@ def handler(payload):
                 res["parse"] = list(r) if r[0] != "ok" else ["ok", r[1]]
             if "update_twice" in ops and hab is not None:
                 def again():
-                    hab.update_csf()
-                    return hab.export()
-                r = guarded(again, seconds=120)
-                res["update_twice"] = list(r) if r[0] != "ok" else ["ok", r[1].hex()]
+                    out = []
+                    for _ in range(2):          # two further update_csf() calls, export after each
+                        hab.update_csf()
+                        out.append(hab.export().hex())
+                    return out
+                r = guarded(again, seconds=240)
+                res["update_twice"] = list(r) if r[0] != "ok" else ["ok", r[1]]
         finally:
             os.chdir(cwd)
         results.append(res)
